@@ -67,7 +67,7 @@ def run(chk):
 
     # factory route, for both documented spellings of the target
     for spelling in ("DLPOLY", "DL_POLY"):
-        resolved = resolve_target(P, spelling)
+        resolved = W.resolve_target(P, spelling)
         r = W.factory_route(chk, P, "C02.F", resolved, "DLPoly_PairTabulation", label=spelling)
         if r is None:
             continue
@@ -86,31 +86,12 @@ def run(chk):
     chk.assume("an empty potential list skips the Python-API modulus check (no block is written)")
 
 
-def resolve_target(P, given):
-    """the factory key that _TabulationSection._init_target produces for a target spelling"""
-    I = W.make_interp(P)
-    I.hooks["atsim.potentials.config._config_parser:_get_or_none"] = lambda i, fv, a, k, n: Const(given)
-    ci = P.cls("atsim.potentials.config._config_parser", "_TabulationSection")
-    inst = InstV(ci)
-    cp = DictV()
-    cp.items[Const("Tabulation").key()] = (Const("Tabulation"), W.param("section"))
-    W.run_method(I, inst, "_init_target", [cp])
-    got = inst.attrs.get("_target")
-    if not (isinstance(got, Const) and isinstance(got.v, str)):
-        raise AnalysisError("_init_target did not produce a constant target for %r: %r" % (given, got))
-    return got.v
-
-
 def synonym_obligation(chk, P, rule, given, canonical):
-    """_TabulationSection._init_target maps the synonym to the canonical target"""
-    I = W.make_interp(P)
-    I.hooks["atsim.potentials.config._config_parser:_get_or_none"] = lambda i, fv, a, k, n: Const(given)
-    ci = P.cls("atsim.potentials.config._config_parser", "_TabulationSection")
-    inst = InstV(ci)
-    cp = DictV()
-    cp.items[Const("Tabulation").key()] = (Const("Tabulation"), W.param("section"))
-    W.run_method(I, inst, "_init_target", [cp])
-    got = inst.attrs.get("_target")
-    ok = isinstance(got, Const) and got.v == canonical
-    chk.ob(rule, "target %r is accepted as a synonym of %r" % (given, canonical), ok, site=ci.lookup("_init_target").site(),
+    """the configuration layer maps the synonym to the canonical target (read through ConfigParser.tabulation.target)"""
+    try:
+        got = W.resolve_target(P, given)
+    except AnalysisError as e:
+        got = str(e)
+    site = P.module("atsim.potentials.config._config_parser").relpath + " _TabulationSection"
+    chk.ob(rule, "target %r is accepted as a synonym of %r" % (given, canonical), got == canonical, site=site,
            found=got, expect=canonical, key="%s|synonym|%s" % (rule, given))
